@@ -90,18 +90,26 @@ def judge(run: Run, j: dict, r: dict, inf: dict):
         if isinstance(text, str) and "/models/" in "/" + rel:
             shadow |= set(re.findall(r"^(?:class )?(Union|Any|Optional|Literal|TYPE_CHECKING|TypeVar|Mapping|BinaryIO|Generator|Unset|UNSET|File|Response|Client|AuthenticatedClient|HTTPStatus)\b(?:\(| = |:)", text, re.M))
     shadow_mech = ":class_shadows_template_import" if shadow else ""
+    # mechanism (C07 / C09 merged:class_modules): two classes whose names differ only in case are written to one module file
+    by_mod: dict = {}
+    for rel, text in (r.get("tree") or {}).items():
+        if isinstance(text, str) and rel.endswith("models/__init__.py"):
+            for m_, n_ in re.findall(r"^from \.(\w+) import (\w+)$", text, re.M):
+                by_mod.setdefault(m_, set()).add(n_)
+    if any(len(v) > 1 for v in by_mod.values()):
+        shadow_mech = ":classes_share_a_module"
     for e in res.get("errors", []):
         x = e["exc"]
         if x["type"] == "SyntaxError":
             continue  # reported above from the tree (same file or a file importing it)
         n_problems += 1
-        vd.violation(f"import_error:{artefact_kind(e['module'].replace('.', '/') + '.py')}:{x['type']}{shadow_mech if x['type'] in ('TypeError', 'NameError', 'AttributeError', 'ImportError') else ''}", f"{e['module']}: {x['type']}: {x['msg']}", witness)
+        vd.violation(f"import_error:{artefact_kind(e['module'].replace('.', '/') + '.py')}:{x['type']}{shadow_mech if x['type'] in ('TypeError', 'NameError', 'AttributeError', 'ImportError', 'KeyError') else ''}", f"{e['module']}: {x['type']}: {x['msg']}", witness)
     removed = removed_by_cascade(r.get("diags") or [])
     for u in res.get("unresolved", []):
         if "SyntaxError" in u["what"]:
             continue
         n_problems += 1
-        mech = dangling_mechanism(u, r.get("tree") or {}, removed)
+        mech = dangling_mechanism(u, r.get("tree") or {}, removed) or shadow_mech
         vd.violation(f"unresolved_name:{artefact_kind(u['module'].replace('.', '/') + '.py')}{mech}", f"{u['module']}:{u['line']}: {u['what']}", witness)
     for h in res.get("hint_errors", []):
         if any(b[:-3] in h["exc"] for b in bad_files) or (bad_files and "NameError" in h["exc"]):
